@@ -84,6 +84,7 @@ def main():
     ap.add_argument('--limit', type=int, default=10 ** 9)
     ap.add_argument('--out', default='/tmp/mutsweep.json')
     ap.add_argument('--seed', type=int, default=0)
+    ap.add_argument('--recheck', help='JSON of an earlier sweep: re-run only the survivors that no check caught, with the current checks (+C04)')
     a = ap.parse_args()
     shutil.rmtree(SCR, ignore_errors=True)
     rc, out = sh(f'git clone -q /repo {SCR}')
@@ -97,6 +98,13 @@ def main():
             allm.append((f, ln, old, new, desc))
     random.Random(a.seed).shuffle(allm)
     allm = allm[:a.limit]
+    if a.recheck:
+        prev = json.load(open(a.recheck))
+        want = {(r['file'], r['line'], r['new']) for r in prev if r['suite'] == 'survived' and not r.get('caught')}
+        allm = [m for m in allm if (m[0], m[1] + 1, m[3].strip()) in want]
+        for f in CHECKS:
+            if 'C04' not in CHECKS[f]:
+                CHECKS[f] = [c for c in CHECKS[f] if c != 'C01'] + ['C04']
     print(f'{len(allm)} mutants', flush=True)
     res = []
     rc, out = sh('cargo test --workspace --offline 2>&1 | tail -3', cwd=SCR)  # warm build
@@ -113,7 +121,7 @@ def main():
             killed = 'error' in out or 'FAILED' in out or 'timeout' in out or '71 passed' not in out
             rec['suite'] = 'killed' if killed else 'survived'
             if not killed:
-                env = dict(os.environ, VERIF_REPO=SCR, VERIF_BUILD=BUILD, VERIF_WORKERS='8')
+                env = dict(os.environ, VERIF_REPO=SCR, VERIF_BUILD=BUILD, VERIF_WORKERS='8', VERIF_EVIDENCE_DIR=BUILD + '/evidence')
                 rec['checks'] = {}
                 for c in CHECKS[f]:
                     rc, o = sh(f'./check {c} --tier quick > /tmp/sweep.last 2>&1', cwd='/verif', env=env, timeout=1200)
